@@ -26,6 +26,8 @@ def zero(d, t):
 
 def emit_types(d):
     out = []
+    if any(p.get('alias_error') for p in d['providers']):
+        out.append('type Failure%s = error\n' % '')
     for name, ty in sorted(d['types'].items()):
         form = ty['form']
         if form == 'iface':
@@ -52,7 +54,7 @@ def emit_provider_fn(d, p):
         terms.append('rt.CtxTerm(a%d)' % i if r == 'ctx' else 'rt.TermOf(a%d)' % i)
     results = [texpr(d, g[0]) for g in p['provides']]
     if p['fallible']:
-        results.append('error')
+        results.append('Failure' if p.get('alias_error') else 'error')
     rs = ', '.join(results)
     if len(results) > 1:
         rs = '(' + rs + ')'
@@ -75,8 +77,13 @@ def provider_expr(d, p):
         return 'kessoku.Value(mk_%s("%s()#0"))' % (t, p['id'])
     if p['kind'] == 'structexp':
         e = 'kessoku.Struct[%s]()' % texpr(d, p['struct'])
+        if p.get('async'):
+            e = 'kessoku.Async(%s)' % e        # the field reads stay synchronous; the wrapper must be harmless
         return e
     e = 'kessoku.Provide(%s)' % p['id']
+    if p.get('as_value_call'):
+        # an injected value whose expression is a call: evaluated where the generated code builds the provider
+        e = 'kessoku.Value(%s())' % p['id']
     binds = [a for g in p['provides'] for a in g[1:]]
     if p.get('wrap', 'async-bind') == 'bind-async':
         if p['async']:
@@ -111,13 +118,21 @@ def emit_inject(d):
     byid = {p['id']: p for p in d['providers']}
     setdecls = []
     items = emit_layout(d, d['layout'], byid, setdecls)
+    if d.get('multi_name_sets') and len(setdecls) >= 2:
+        # var A, B = kessoku.Set(...), kessoku.Set(...)   (one var statement, several names)
+        names, values = [], []
+        for sd in setdecls:
+            n, v = sd[len('var '):].split(' = ', 1)
+            names.append(n)
+            values.append(v.rstrip('\n'))
+        setdecls = ['var %s = %s\n' % (', '.join(names), ', '.join(values))]
     s = ''.join(setdecls)
     s += 'var _ = kessoku.Inject[%s](\n\t"%s",\n\t%s,\n)\n' % (texpr(d, d['ret']), d['injector'], ',\n\t'.join(items))
     return s
 
 
 def uses_ctx(d):
-    return any('ctx' in p.get('requires', []) for p in d['providers'])
+    return any('ctx' in p.get('requires', []) for p in d['providers']) or bool(d.get('pkg_ctx'))
 
 
 def emit_decl_file(d, pkg='main', with_types=True, with_inject=True):
@@ -126,6 +141,8 @@ def emit_decl_file(d, pkg='main', with_types=True, with_inject=True):
         imports.insert(0, '"context"')
     s = 'package %s\n\nimport (\n\t%s\n)\n\n' % (pkg, '\n\t'.join(imports))
     if with_types:
+        if d.get('pkg_ctx'):
+            s += 'var ctx = context.Background() // a package-level identifier named like the generator\'s favourite local\n\n'
         s += emit_types(d) + '\n'
         for p in d['providers']:
             if p['kind'] == 'fn':
